@@ -385,7 +385,22 @@ func genSignedStructs(g *G, count int) {
 			g.valid = true
 			id, tr, forge = g.newIdentity([]int{1, 1, 7, 7}[i-12], 4, false, nil), g.newSigner(7), []string{"self", "other", "zero-expires", "zero-expires"}[i-12]
 		}
+		// correctly signed structures with RESERVED flag bits set (with and without an offline block): whether a reader
+		// admits them is its policy; a value it returns together with an error must not verify
+		reservedRound := i >= 16 && i < 19
+		reservedBits := 0
+		if reservedRound {
+			g.valid = true
+			reservedBits = []int{0x0008, 0x8000, 0x0ff0}[i-16]
+			id, forge = g.newIdentity(7, 4, false, nil), ""
+			tr = nil
+			if i == 17 {
+				tr = g.newSigner(7)
+			}
+			forceLS2Flags = reservedBits | []int{0, 2, 4}[i-16]
+		}
 		body, sg := g.encLS2Body(id, tr, forge)
+		forceLS2Flags = -1
 		for _, c := range g.adversary([]byte{3}, body, sg, id.sg) {
 			g.gen = "ls2-" + c.tag + "-off:" + offTag(tr, forge)
 			b, tag := g.maybeMutate(c.bytes, 0.15)
@@ -411,6 +426,14 @@ func genSignedStructs(g *G, count int) {
 			id, tr, forge = g.newIdentity(7, 4, false, nil), g.newSigner([]int{0, 2, 1, 11}[i-8]), ""
 		}
 		flags := r.pick(0, 0, 2)
+		if reservedRound {
+			id, forge = g.newIdentity(7, 4, false, nil), ""
+			tr = nil
+			if i == 17 {
+				tr = g.newSigner(7)
+			}
+			flags = []int{0x0004, 0x8002, 0x0ff0}[i-16]
+		}
 		sg = id.sg
 		mb := cat(id.bytes, u32(g.ts()), u16(r.pick(0, 600, 65535)))
 		if tr != nil {
